@@ -56,6 +56,27 @@ class PlayServer(simnet.BaseServer):
         self.play_frames = []
         self.login_frames = []
         self.handshake = None
+        self.zl = None
+        self.problems = []
+
+    def _uncompress(self, body):
+        if self.zl is None:
+            return simnet.BaseServer._uncompress(self, body)
+        n, k = simnet.varint_at(body, 0)
+        rest = body[k:]
+        if n == 0:
+            return rest
+        if Ctx.cur.mode == 'sym':
+            for out, orig in self.zl.table:
+                if len(out) == len(rest) and all(
+                        netenv._same_item(a, b) for a, b in zip(out, rest)):
+                    if len(orig) != n:
+                        self.problems.append('wrong data length')
+                    return list(orig)
+            self.problems.append('undecodable compressed frame')
+            return rest
+        import zlib
+        return list(zlib.decompress(bytes(rest)))
 
     def handle(self, state, body):
         from minecraft.networking.packets import clientbound
@@ -175,12 +196,26 @@ def play(ctx, pattern, version='sym', compressed=False, sentinel=False,
     exits, excs, seen = [], [], []
     threshold = 256 if compressed else None
     servers = []
+    zl = None
+    import contextlib
+    patches = contextlib.ExitStack()
+    if compressed == 'sym':
+        # ANY threshold: frames of the conversation end up below, at and
+        # above it (the server's choice at equality is an input, see
+        # world.packet_frame)
+        import minecraft.networking.connection as cn
+        import minecraft.networking.packets.packet as pk
+        threshold = ctx.int('threshold', 0, (1 << 31) - 1)
+        zl = netenv.ZlibStub()
+        patches.enter_context(netenv.patched(pk, compress=zl.compress))
+        patches.enter_context(netenv.patched(cn, zlib=zl))
 
     def factory(wld, sock):
         s = PlayServer(wld, sock, cx, history, threshold, None)
+        s.zl = zl
         servers.append(s)
         return s
-    with World(ctx, factory) as wld:
+    with patches, World(ctx, factory) as wld:
         conn = Connection('host', 25565, username='u', allowed_versions=[pv],
                           handle_exit=lambda: exits.append(1),
                           handle_exception=lambda e, i: excs.append(e))
@@ -193,7 +228,7 @@ def play(ctx, pattern, version='sym', compressed=False, sentinel=False,
     if len(servers) != 1 or len(ran) != 1:
         return z3.BoolVal(False)
     srv = servers[0]
-    conds = []
+    conds = [z3.BoolVal(srv.problems == [])]
     # ---- one response per K / P, in arrival order, equal ids
     got = list(srv.play_frames)
     if sentinel and expect:
@@ -268,6 +303,12 @@ def instances(tier, seed):
                         {'pattern': 'KPK', 'compressed': True,
                          'version': 47}, W=96, budget_s=1800,
                         max_decisions=200000))
+    for pat, v in (('KPK', 757), ('KPK', 47), ('KUD', 340)):
+        out.append(Instance('play:zsym:%s:%d' % (pat, v), 'play',
+                            {'pattern': pat, 'compressed': 'sym',
+                             'version': v, 'lite': True}, W=96,
+                            budget_s=1800, max_decisions=200000,
+                            note='symbolic compression threshold'))
     out.append(Instance('play:PK:47:coords', 'play',
                         {'pattern': 'PK', 'version': 47,
                          'sym_coords': True}, W=96, budget_s=1800,
